@@ -106,10 +106,16 @@ impl Powers {
     pub fn insert(&mut self, unit: Unit, power: i32) {
         match self.powers.entry(unit) {
             btree_map::Entry::Vacant(e) => {
-                e.insert(power);
+                if power != 0 {
+                    e.insert(power);
+                }
             }
             btree_map::Entry::Occupied(mut e) => {
                 *e.get_mut() += power;
+
+                if *e.get() == 0 {
+                    e.remove_entry();
+                }
             }
         }
     }
